@@ -742,6 +742,8 @@ fn c18(args: &Args) -> ! {
         ("unknown", json!({"method": "org.nope.X", "parameters": {}})),
         ("getinfo", json!({"method": "org.varlink.service.GetInfo"})),
         ("gid-a", json!({"method": "org.varlink.service.GetInterfaceDescription", "parameters": {"interface": "org.verif.a"}})),
+        // an upgrade-flagged call that nobody implements: refused, the session is not upgraded
+        ("unknown-upgrade", json!({"method": "org.nope.X", "upgrade": true, "parameters": {}})),
     ];
     let svc = svc_exe();
     let modes: Vec<(&str, Vec<String>)> = vec![
@@ -772,7 +774,16 @@ fn c18(args: &Args) -> ! {
         if *mname == "resolver" && _res.is_none() {
             continue;
         }
-        for s in sequences(letters.len(), maxlen) {
+        let mut seqs: Vec<Vec<usize>> = sequences(letters.len(), maxlen).collect();
+        if maxlen < 3 {
+            // quick tier: the triples around a refused call (routing state must survive it: last interface, last service stream, upgraded flag)
+            for mid in [5usize, 8, 4] {
+                for (a, b) in [(0usize, 1usize), (1, 0), (0, 0), (0, 6), (2, 1)] {
+                    seqs.push(vec![a, mid, b]);
+                }
+            }
+        }
+        for s in seqs {
             for pipelined in [false, true] {
                 idx += 1;
                 let names: Vec<&str> = s.iter().map(|i| letters[*i].0).collect();
